@@ -205,3 +205,15 @@ add('C10',
     assumptions=['the controlled scheduler explores sequentially consistent interleavings at the hook points; missing release/acquire edges are observed by ThreadSanitizer on plain node/value fields',
                  'a key is not re-inserted after an erase while readers may still hold its value (the client must wait for a grace period: not a promise of the tree)'],
     )
+
+# ---------------------------------------------------------------------------------------------- C05
+add('C05',
+    level='exploration',
+    rule='slab_pool shared by threads: E3 bounded-preemption DFS over 7 scenarios (two workers find a class empty at once, free into the slab another worker allocates from, slab becoming full/partial, large+small, moving realloc, three workers) and PCT/random schedules of random scripts with switches at every pool mutex operation, hook point and policy callback; E2 2-8 free-running threads with cross-thread frees under ThreadSanitizer for three mutex types + offline overlap check of the recorded history',
+    jobs=[job('slab_sched', 'c05_slab_sched.cpp', shards={'quick': 8, 'thorough': 16}),
+          job('slab_tsan', 'c05_tsan.cpp', flavour='tsan', shards={'quick': 4, 'thorough': 8})],
+    min_evaluations={'quick': 5000, 'thorough': 100000},
+    min_counters={'schedules': 5000, 'dfs_spaces_exhausted': 4, 'schedules_with_concurrent_slab_construction_or_extra_map': 500, 'tsan_allocations': 100000, 'tsan_cross_thread_frees': 1000},
+    assumptions=['the controlled scheduler explores sequentially consistent interleavings at lock operations, hook points and policy callbacks; data races on pool state are observed by ThreadSanitizer in the free-running runs',
+                 'blocks are written with plain stores by their owner, so a double hand-out is also a data race'],
+    )
